@@ -17,17 +17,21 @@ def scenario(rng, k, tier):
     nkeys = 4
     keys = [rand_key(rng, 30) for _ in range(nkeys)]
     has_wild = rng.random() < 0.7
+    # every policy of a script (explicit, wildcard, receivers) has the same crypto parameters and differs in the key only; the
+    # services of the RTP and RTCP halves may differ (a clone must process SRTCP with the RTCP half of the template's policy)
+    sr, sc = [(3, 3), (3, 2), (2, 3), (2, 2)][k % 4]
+    cpk = dict(rtp=cp(serv=sr), rtcp=cp(serv=sc))
     L = []
     # policy ids: 10+i explicit with key i (ssrc filled per use), 20+i wildcard with key i, receivers 30+i (wildcard inbound, key i)
     for i in range(nkeys):
-        L.append(default_policy(rng, 0, ssrc_type=SSRC_ANY_IN, keys=[(keys[i], b"")]).line(30 + i))
+        L.append(default_policy(rng, 0, ssrc_type=SSRC_ANY_IN, keys=[(keys[i], b"")], **cpk).line(30 + i))
         L.append(f"create {H(10 + i)} {H(30 + i)}")
     wild_key = rng.randrange(nkeys)
     first = []
     wild_allow = rng.random() < 0.5          # allow_repeat_tx of the wildcard policy: clones must inherit it, also after a re-key
     allow = {}                                # allow_repeat_tx of the explicit streams
     if has_wild:
-        L.append(default_policy(rng, 0, ssrc_type=SSRC_ANY_OUT, keys=[(keys[wild_key], b"")], allow_repeat=wild_allow).line(20))
+        L.append(default_policy(rng, 0, ssrc_type=SSRC_ANY_OUT, keys=[(keys[wild_key], b"")], allow_repeat=wild_allow, **cpk).line(20))
         first.append(20)
     L.append("create 1 " + " ".join(f"{x:x}" for x in first))
     table = {}        # ssrc -> key index (explicit)
@@ -41,11 +45,13 @@ def scenario(rng, k, tier):
         if r < 0.3 and s not in table and s not in cloned:
             ki = rng.randrange(nkeys)
             allow[s] = rng.random() < 0.5
-            L.append(default_policy(rng, s, keys=[(keys[ki], b"")], allow_repeat=allow[s]).line(5))
+            L.append(default_policy(rng, s, keys=[(keys[ki], b"")], allow_repeat=allow[s], **cpk).line(5))
             L.append("add 1 5"); L.append(f"# A {s:x} {ki}")
             table[s] = ki
         elif r < 0.42:
             L.append(f"remove 1 {H(s)}"); L.append(f"# D {s:x} {1 if (s in table or s in cloned) else 0}")
+            for i in range(nkeys):
+                L.append(f"remove {H(10 + i)} {H(s)}")     # a re-created sender stream restarts its SRTCP index: the receivers forget the SSRC too
             table.pop(s, None); cloned.discard(s); 
         elif r < 0.5:
             L.append(f"getroc 1 {H(s)}"); L.append(f"# G {s:x} {1 if (s in table or s in cloned) else 0}")
@@ -53,19 +59,29 @@ def scenario(rng, k, tier):
             L.append(f"setroc 1 {H(s)} 0"); L.append(f"# G {s:x} {1 if (s in table or s in cloned) else 0}")
         elif r < 0.6 and has_wild:
             # a second wildcard policy must be refused
-            L.append(default_policy(rng, 0, ssrc_type=rng.choice([SSRC_ANY_OUT, SSRC_ANY_IN]), keys=[(keys[0], b"")]).line(6))
+            L.append(default_policy(rng, 0, ssrc_type=rng.choice([SSRC_ANY_OUT, SSRC_ANY_IN]), keys=[(keys[0], b"")], **cpk).line(6))
             L.append("add 1 6"); L.append("# W")
         elif r < 0.64 and has_wild:
             # re-key the wildcard: clones (present and future) switch to the new key, explicit streams keep theirs
             ki = rng.randrange(nkeys)
-            L.append(default_policy(rng, 0, ssrc_type=SSRC_ANY_OUT, keys=[(keys[ki], b"")], allow_repeat=wild_allow).line(8))
+            L.append(default_policy(rng, 0, ssrc_type=SSRC_ANY_OUT, keys=[(keys[ki], b"")], allow_repeat=wild_allow, **cpk).line(8))
             L.append("update 1 8"); L.append("# V")
             wild_key = ki
         elif r < 0.70 and s in table:
             ki = rng.randrange(nkeys)
-            L.append(default_policy(rng, s, keys=[(keys[ki], b"")], allow_repeat=allow.get(s, False)).line(7))
+            L.append(default_policy(rng, s, keys=[(keys[ki], b"")], allow_repeat=allow.get(s, False), **cpk).line(7))
             L.append("update 1 7"); L.append(f"# U {s:x} {ki}")
             table[s] = ki
+        elif r < 0.80:
+            # SRTCP through the same dispatch: explicit stream first, else a clone of the wildcard template
+            rp = rtcp_packet(s, bytes([step & 0xff] * 12))
+            L.append(pkt_op("protect_rtcp", 1, rp, cap=len(rp) + 30)); a = len(L)
+            exp = table[s] if s in table else (wild_key if has_wild else -1)
+            if s not in table and has_wild:
+                cloned.add(s)
+            for i in range(nkeys):
+                L.append(pkt_op("unprotect_rtcp", 10 + i, f"@{a:x}", cap=len(rp) + 30))
+            L.append(f"# P {s:x} {exp}")
         else:
             q = seq.get(s, rng.choice([1, 500]))
             seq[s] = q + 1
